@@ -518,7 +518,8 @@ func runSymgoJob(prog *symgo.Program, inst instance, tier string, workers int, s
 	jr.Extra = map[string]any{"samples": rep.Samples, "notes": rep.Notes}
 	if cfg.Params["preempt"] > 0 {
 		jr.Extra["schedule_exploration"] = map[string]any{"preemption_bound": cfg.Params["preempt"], "paths_with_a_preemption": rep.PreemptedPaths, "max_preemptions_on_a_path": rep.MaxPreempts,
-			"rule": "every sync / sync/atomic call, channel operation, select and go statement is a schedule point; while the bound lasts the engine forks over continuing and switching to each runnable goroutine; at blocking points and goroutine ends it forks over every runnable goroutine"}
+			"next_goroutine_choice_at_blocking_points": cfg.Params["nextchoice"] > 0,
+			"rule": "every sync / sync/atomic call, channel operation, select, close and go statement is a schedule point; while the bound lasts the engine forks over continuing and switching to each runnable goroutine; at blocking points and goroutine ends the next goroutine is the first runnable one in creation order (FIFO) or, with nextchoice=1, every runnable one (fork)"}
 	}
 
 	// counterexamples: group by assertion, replay natively
